@@ -50,6 +50,11 @@ fn parse_file(file: &mut SliceFile, ast: &mut Ast, diagnostics: &mut Diagnostics
             message: "module declaration is required".to_owned(),
         })
         .push_into(diagnostics);
+
+        // Definitions without a module are in the global scope, where they could hide the primitive types from the
+        // other files. Like for any other syntax error, we discard what the parser added to the AST for this file.
+        ast.truncate(element_count);
+        return;
     }
 
     // Store the parsed data in the `SliceFile` it was parsed from.
